@@ -199,3 +199,36 @@ class Aliases:
     def norm(self, node: ast.AST) -> str:
         from sa.model import norm as _norm
         return _norm(self.expand(node))
+
+
+def expression_facts(pm: dict, node: ast.AST) -> list[tuple[ast.AST, bool]]:
+    """(test, truth) pairs that hold where `node` is evaluated because of the expressions that enclose it: the test of a
+    conditional expression for its arms, earlier operands of and/or, the `if` clauses of a comprehension for its element.
+    pm is parent_map(function)."""
+    out = []
+    cur = node
+    while cur in pm:
+        par = pm[cur]
+        if isinstance(par, ast.stmt):
+            break
+        if isinstance(par, ast.IfExp):
+            if cur is par.body:
+                out.append((par.test, True))
+            elif cur is par.orelse:
+                out.append((par.test, False))
+        elif isinstance(par, ast.BoolOp):
+            idx = next((i for i, v in enumerate(par.values) if v is cur), None)
+            if idx:
+                for v in par.values[:idx]:
+                    out.append((v, isinstance(par.op, ast.And)))
+        elif isinstance(par, (ast.GeneratorExp, ast.ListComp, ast.SetComp)) and cur is par.elt:
+            for g in par.generators:
+                for c in g.ifs:
+                    out.append((c, True))
+        elif isinstance(par, ast.comprehension):
+            idx = next((i for i, c in enumerate(par.ifs) if c is cur), None)
+            if idx:
+                for c in par.ifs[:idx]:
+                    out.append((c, True))
+        cur = par
+    return out
